@@ -123,6 +123,72 @@ def vid(v) -> int:
     return int(v.name[1:])
 
 
+# ---------------------------------------------------------------- the same problem under other names
+# An answer may not depend on what the variables are called. The schemes keep the string order of V0..V9 (y0 sorts by name), so the renamed answer,
+# with the names mapped back, has to be the same TEXT. They are shaped like names users have: a leading digit, digits inside, underscores.
+def _mixed(i):      # a leading digit on some names only (digits sort before letters, so the order of V0..V9 is kept)
+    return f"{i}M" if i < 3 else f"V{i}"
+
+
+_B = r"(?<![A-Za-z0-9_])"
+_E = r"(?![A-Za-z0-9_])"
+SCHEMES = [(_mixed, _B + r"(\d)M" + _E, "<k>M for k < 3, V<k> otherwise"),
+           (lambda i: f"PI{i}K", _B + r"PI(\d)K" + _E, "PI<k>K"),
+           (lambda i: f"gene_{i}_x", _B + r"gene_(\d)_x" + _E, "gene_<k>_x"),
+           (lambda i: f"{i}M", _B + r"(\d)M" + _E, "<k>M")]
+
+
+class naming:
+    """with naming(k): ... - inside, GG.V / GG.vid use the k-th scheme (every plug-in builds its variables through GG.V)."""
+
+    def __init__(self, k):
+        self.fun, self.pat, self.label = SCHEMES[k % len(SCHEMES)]
+
+    def __enter__(self):
+        import re
+        import sys
+        from y0.dsl import Variable
+        mod = sys.modules[__name__]
+        self.saved = (mod.V, mod.vid)
+        fun, pat = self.fun, re.compile(self.pat)
+
+        def vid_(v):
+            m = pat.fullmatch(v.name)
+            return int(m.group(1)) if m else int(v.name[1:])
+        mod.V = lambda i: Variable(fun(i))
+        mod.vid = vid_
+        return self
+
+    def __exit__(self, *exc):
+        import sys
+        mod = sys.modules[__name__]
+        mod.V, mod.vid = self.saved
+        return False
+
+    def back(self, text):
+        import re
+        return re.sub(self.pat, r"V\1", text)
+
+
+def renamed_differs(case, mine, outcome):
+    """Run [outcome] (a function of nothing that builds its y0 objects through GG.V) under another naming scheme for one case in three and compare
+    its text, names mapped back, with [mine]. Returns a description of the difference or None."""
+    import zlib
+    h = zlib.crc32(repr(case).encode())
+    if h % 3:
+        return None
+    nm = naming(h // 3)
+    try:
+        with nm:
+            other = outcome()
+    except Exception as ex:  # noqa: BLE001
+        other = "exception:" + type(ex).__name__
+    other = nm.back(str(other))
+    if other != str(mine):
+        return f"with the variables called {nm.label} the answer is {other}, not {mine}"
+    return None
+
+
 def build_y0(g, V, warm=None, every=4, loose=False):
     """The y0 graph of a case. One graph in [every] (chosen by the case itself, so reproducibly) is built the way an analyst edits a graph:
     part of the nodes and edges, some queries (which a careless cache would remember; [warm] is the calling property's own entry point), then the rest
